@@ -7,6 +7,7 @@ package c12
 import (
 	"fmt"
 	"sort"
+	"strings"
 
 	"google.golang.org/protobuf/proto"
 	"google.golang.org/protobuf/reflect/protodesc"
@@ -101,6 +102,142 @@ func newUniverse(fds *descriptorpb.FileDescriptorSet, isImport map[string]bool) 
 	}
 	sort.Strings(u.pkgs)
 	return u, nil
+}
+
+// ---- packages and the accept / reject reference
+
+// Package kinds as seen by a filter.
+const (
+	pkgTarget     = "package:all-target"  // every file that declares it is a target file
+	pkgMixed      = "package:mixed"       // declared by target files and by import files
+	pkgAllImport  = "package:all-import"  // only import files declare it
+	pkgParentOnly = "package:parent-only" // no file declares it, but it is a proper prefix of a declared package ("" included)
+)
+
+// pkgKind classifies a name as a package ("" if it is not one).
+func (u *universe) pkgKind(n string) string {
+	if paths, ok := u.pkgFiles[n]; ok {
+		imports := 0
+		for _, p := range paths {
+			if u.isImport[p] {
+				imports++
+			}
+		}
+		switch imports {
+		case 0:
+			return pkgTarget
+		case len(paths):
+			return pkgAllImport
+		}
+		return pkgMixed
+	}
+	for _, declared := range u.pkgs {
+		if n == "" && declared != "" {
+			return pkgParentOnly
+		}
+		if n != "" && strings.HasPrefix(declared, n+".") {
+			return pkgParentOnly
+		}
+	}
+	return ""
+}
+
+// parentOnlyPkgs lists the proper prefixes of declared packages that no file declares (sorted, "" first).
+func (u *universe) parentOnlyPkgs() []string {
+	set := map[string]bool{}
+	for _, declared := range u.pkgs {
+		if declared != "" {
+			set[""] = true
+		}
+		parts := strings.Split(declared, ".")
+		for i := 1; i < len(parts); i++ {
+			set[strings.Join(parts[:i], ".")] = true
+		}
+	}
+	var out []string
+	for n := range set {
+		if _, declared := u.pkgFiles[n]; !declared && u.byName[n] == nil {
+			out = append(out, n)
+		}
+	}
+	sort.Strings(out)
+	return out
+}
+
+// Rejection kinds: the documented errors of a filter name.
+const (
+	rejectNotFound = "not-found" // ErrImageFilterTypeNotFound: not a message/enum/service/method/extension/package of the image
+	rejectIsImport = "is-import" // ErrImageFilterTypeIsImport: include of something declared only in import files, without WithAllowIncludeOfImportedType
+	rejectNoFiles  = "no-files"  // include of a package no file declares (only sub-packages), without WithAllowIncludeOfImportedType: nothing of it is "defined directly in the image"
+)
+
+type rejection struct{ name, side, kind string }
+
+// rejections is the reference for "the filter must fail": documentation of WithIncludeTypes /
+// WithExcludeTypes (unknown name => not found) and of WithAllowIncludeOfImportedType ("without this
+// option, only types defined directly in the image to be filtered are allowed. Excluded types are
+// always allowed to be in imported files"). A package is defined directly in the image as soon as one
+// target file declares it.
+func (u *universe) rejections(f filterSpec) []rejection {
+	var out []rejection
+	for _, n := range f.Exclude {
+		if u.byName[n] == nil && u.pkgKind(n) == "" {
+			out = append(out, rejection{n, "exclude", rejectNotFound})
+		}
+	}
+	for _, n := range f.Include {
+		if e := u.byName[n]; e != nil {
+			if e.isImport && !f.AllowImported {
+				out = append(out, rejection{n, "include", rejectIsImport})
+			}
+			continue
+		}
+		switch u.pkgKind(n) {
+		case "":
+			out = append(out, rejection{n, "include", rejectNotFound})
+		case pkgAllImport:
+			if !f.AllowImported {
+				out = append(out, rejection{n, "include", rejectIsImport})
+			}
+		case pkgParentOnly:
+			if !f.AllowImported {
+				out = append(out, rejection{n, "include", rejectNoFiles})
+			}
+		}
+	}
+	return out
+}
+
+// keepsSomeFile: does the filter keep a file for its own sake (even one that declares no types)? With
+// includes: a file of an included package; without: a target file whose package is not excluded.
+func (u *universe) keepsSomeFile(f filterSpec) bool {
+	excludedPkg := map[string]bool{}
+	for _, n := range f.Exclude {
+		if u.byName[n] == nil {
+			excludedPkg[n] = true
+		}
+	}
+	if len(f.Include) == 0 {
+		for pkg, paths := range u.pkgFiles {
+			for _, p := range paths {
+				if !u.isImport[p] && !excludedPkg[pkg] {
+					return true
+				}
+			}
+		}
+		return false
+	}
+	for _, n := range f.Include {
+		if u.byName[n] != nil || excludedPkg[n] {
+			continue
+		}
+		for _, p := range u.pkgFiles[n] {
+			if !u.isImport[p] || f.AllowImported {
+				return true
+			}
+		}
+	}
+	return false
 }
 
 // nestedIn reports whether element name is (transitively) declared inside anc.
